@@ -418,6 +418,26 @@ func c06Props() []c06Prop {
 		}
 		return m.Revision().Ident() + "/" + strings.Join(s, ",")
 	}, "0/0,2021-01-01,2020-01-01")
+	// every argument is a string: keywords, booleans and numbers may be written in quotes
+	for _, qt := range []string{`"`, `'`} {
+		qt := qt
+		name := map[string]string{`"`: "double-quoted", `'`: "single-quoted"}[qt]
+		add("quoted-argument/"+name+"/config", `leaf l { type string; config `+qt+`false`+qt+`; }`, func(m *meta.Module) string { return b(leafOf(m, "l").(*meta.Leaf).Config()) }, "false")
+		add("quoted-argument/"+name+"/mandatory", `leaf l { type string; mandatory `+qt+`true`+qt+`; }`, func(m *meta.Module) string { return b(leafOf(m, "l").(*meta.Leaf).Mandatory()) }, "true")
+		add("quoted-argument/"+name+"/max-elements", `leaf-list l { type string; max-elements `+qt+`5`+qt+`; }`, func(m *meta.Module) string { return fmt.Sprint(leafOf(m, "l").(*meta.LeafList).MaxElements()) }, "5")
+		add("quoted-argument/"+name+"/min-elements", `leaf-list l { type string; min-elements `+qt+`2`+qt+`; }`, func(m *meta.Module) string { return fmt.Sprint(leafOf(m, "l").(*meta.LeafList).MinElements()) }, "2")
+		add("quoted-argument/"+name+"/ordered-by", `leaf-list l { type string; ordered-by `+qt+`user`+qt+`; }`, func(m *meta.Module) string { return fmt.Sprint(leafOf(m, "l").(*meta.LeafList).OrderedBy() == meta.OrderedByUser) }, "true")
+		add("quoted-argument/"+name+"/status", `leaf l { type string; status `+qt+`current`+qt+`; }`, func(m *meta.Module) string { return "loads" }, "loads")
+		add("quoted-argument/"+name+"/enum-value", `leaf l { type enumeration { enum a { value `+qt+`3`+qt+`; } } }`, func(m *meta.Module) string { return fmt.Sprint(leafOf(m, "l").(*meta.Leaf).Type().Enum()[0].Id) }, "3")
+		add("quoted-argument/"+name+"/bit-position", `leaf l { type bits { bit a { position `+qt+`3`+qt+`; } } }`, func(m *meta.Module) string { return fmt.Sprint(leafOf(m, "l").(*meta.Leaf).Type().Bits()[0].Position) }, "3")
+		add("quoted-argument/"+name+"/fraction-digits", `leaf l { type decimal64 { fraction-digits `+qt+`2`+qt+`; } }`, func(m *meta.Module) string { return fmt.Sprint(leafOf(m, "l").(*meta.Leaf).Type().FractionDigits()) }, "2")
+		add("quoted-argument/"+name+"/key", `list l { key `+qt+`k`+qt+`; leaf k { type string; } }`, func(m *meta.Module) string { return fmt.Sprint(len(leafOf(m, "l").(*meta.List).KeyMeta())) }, "1")
+		out = append(out, c06Prop{"quoted-argument/" + name + "/revision", c06Hdr + `revision ` + qt + `2020-01-01` + qt + `; }`, func(m *meta.Module) string { return m.Revision().Ident() }, "2020-01-01"})
+		out = append(out, c06Prop{"quoted-argument/" + name + "/yang-version", `module m { yang-version ` + qt + `1.1` + qt + `; namespace "urn:m"; prefix p; revision 0; }`, func(m *meta.Module) string { return m.Version() }, "1.1"})
+	}
+	add("extension-prefix-begins-like-a-keyword", `extension e { argument a; } leaf l { type string; }`, func(m *meta.Module) string { return "loads" }, "loads")
+	out = append(out, c06Prop{"extension-prefix-begins-like-a-keyword/keys", `module m { namespace "urn:m"; prefix keys; revision 0; extension e { argument a; } keys:e "x"; }`, func(m *meta.Module) string { return fmt.Sprint(len(m.Extensions())) }, "1"})
+	out = append(out, c06Prop{"extension-prefix-begins-like-a-keyword/leafy", `module m { namespace "urn:m"; prefix leafy; revision 0; extension e { argument a; } container c { leafy:e "x"; } }`, func(m *meta.Module) string { return fmt.Sprint(len(leafOf(m, "c").(meta.HasExtensions).Extensions())) }, "1"})
 	add("yang-version", ``, func(m *meta.Module) string { return m.Version() }, "1.1")
 	add("prefix", ``, func(m *meta.Module) string { return m.Prefix() }, "p")
 	add("identity/base", `identity b; identity d { base b; }`, func(m *meta.Module) string { return fmt.Sprint(m.Identities()["d"].BaseIds()) }, "[b]")
